@@ -12,6 +12,18 @@ F: the REAL bytes on the specification terminal: every placeholder cell's foregr
    24-bit colour only if the ID's space (Spec.Layout.inSpace, through drv_ids) has 24 colour bits,
    a cell carries a third diacritic only if the space uses it, and the rectangle still decodes to
    the full 32-bit ID at the expected positions.
+
+Family `dargs` (argument handling of display_only): the `id` argument as an integer, an ImagePlaceholder or an ImageInstance
+(constructed, returned by assign_id, or read back with get_image_instance), any subset of the rectangle overrides,
+allow_expansion on/off, abs_pos with negative components, final_cursor_pos by name / left to the terminal object's default /
+an unknown name, fewer_diacritics given or left to the configuration.
+K: status, bytes written (also those written before a late ValueError) and the returned placeholder vs
+   Tup.Model.DisplayArgs.displayCall (drv_ph `dcall`); get_image_placeholder_mode(<the object>) vs `dispmode`.
+F: the rectangle the request stands for is computed here from the request alone (overrides replace the object's own
+   start/end; allow_expansion=False keeps the end inside the object's own end); whatever was printed must decode to exactly
+   that rectangle with only the features the ID's space allows; a request without a defined rectangle (integer id without both
+   ends or with allow_expansion=False, abs_pos together with line feeds, a negative abs_pos) must not put any placeholder cell
+   on the screen.
 """
 from __future__ import annotations
 
@@ -61,6 +73,9 @@ def _display_all(cases):
         if c.get("k") == "alloc":
             res.append(_alloc_scenario(c, td, n_case))
             continue
+        if c.get("k") == "dargs":
+            res.append(_dargs_call(term, out, c, n_case))
+            continue
         out.seek(0)
         out.truncate()
         sc, sr, ec, er = c["rect"]
@@ -81,6 +96,71 @@ def _display_all(cases):
     import shutil
     shutil.rmtree(td, ignore_errors=True)
     return res
+
+
+FPN = {"br": "bottom-right", "tr": "top-right", "tl": "top-left", "bl": "bottom-left", "bad": "middle"}
+
+
+def _dargs_call(term, out, c, n_case):
+    """One display_only call of the family `dargs` on the long-lived terminal -> [status, bytes hex, returned fields, mode fields].
+    The object handed over as `id` is made the way a caller gets one; options the case leaves out are NOT passed."""
+    import datetime
+    from tupimage.placeholder import ImagePlaceholder
+    from tupimage.tupimage_terminal import ImageInstance
+    via, n, own = c["via"], c["id"], c.get("own")
+    try:
+        if via == "int":
+            obj = n
+        elif via == "ph":
+            obj = ImagePlaceholder(n, *own)
+        elif via == "inst-new":
+            obj = ImageInstance(path=f":c14:{n_case}", mtime=datetime.datetime.fromtimestamp(0), cols=own[0], rows=own[1], id=n)
+        else:
+            obj = term.assign_id(f":c14:dargs:{n_case}", cols=own[0], rows=own[1], force_id=n)
+            if via == "inst-db":
+                obj = term.get_image_instance(n)
+    except Exception as e:          # noqa: BLE001
+        return ["prep " + type(e).__name__, "", None, None]
+    kw = {}
+    for name, v in zip(("start_col", "start_row", "end_col", "end_row"), c["ov"]):
+        if v is not None:
+            kw[name] = v
+    if c.get("ae") is not None:
+        kw["allow_expansion"] = bool(c["ae"])
+    if c.get("fewer") is not None:
+        kw["fewer_diacritics"] = bool(c["fewer"])
+    bg = c["bg"]
+    kw["background"] = "none" if bg[0] == "none" else (bg[1] if bg[0] == "idx" else "#%02x%02x%02x" % tuple(bg[1:]))
+    if c.get("pos") is not None:
+        kw["abs_pos"] = tuple(c["pos"])
+    if c.get("lf"):
+        kw["use_line_feeds"] = True
+    if c.get("fp", "def") != "def":
+        kw["final_cursor_pos"] = FPN[c["fp"]]
+    saved = (term.final_cursor_pos, term.fewer_diacritics)
+    term.final_cursor_pos = FPN[c.get("cfgfp", "bl")]
+    term.fewer_diacritics = bool(c.get("cfgfewer", 0))
+    mode = None
+    try:
+        try:
+            m = term.get_image_placeholder_mode(obj, **({"fewer_diacritics": kw["fewer_diacritics"]} if "fewer_diacritics" in kw else {}))
+            mode = [int(m.allow_256colors_for_image_id), int(m.allow_256colors_for_placement_id), int(m.skip_placement_id_if_zero),
+                    m.first_column_diacritic_level.value, m.other_columns_diacritic_level.value, ord(m.placeholder_char)]
+        except Exception as e:          # noqa: BLE001
+            mode = "err " + type(e).__name__
+        out.seek(0)
+        out.truncate()
+        try:
+            r = term.display_only(obj, **kw)
+            return ["ok", out.getvalue().hex(), [r.image_id, r.placement_id, r.start_col, r.start_row, r.end_col, r.end_row], mode]
+        except ValueError:
+            return ["err value", out.getvalue().hex(), None, mode]
+        except IndexError:
+            return ["err index", out.getvalue().hex(), None, mode]
+        except Exception as e:          # noqa: BLE001
+            return ["err " + type(e).__name__, out.getvalue().hex(), None, mode]
+    finally:
+        term.final_cursor_pos, term.fewer_diacritics = saved
 
 
 def _alloc_scenario(c, td, n_case):
@@ -254,24 +334,30 @@ def _judge(ctx: Ctx, c, res, p, replies, req0=""):
         ctx.violation("display_only raised on an addressable placeholder", c, st, key="raises-in-domain")
     if len(replies) < 2:
         return
-    owners = _space_of(ctx, c["id"])
+    _judge_screen(ctx, c, c, p, replies[1])
+
+
+def _judge_screen(ctx: Ctx, c, v, p, spec_reply, judge_cursor=True):
+    """F on the REAL bytes as the specification terminal shows them (`spec_reply`): `c` is the case (reported), `v` the view of
+    the call the judgement needs (id, fewer, pos, lf, fp, W, H, x0, y0), `p` the placeholder the request stands for."""
+    owners = _space_of(ctx, v["id"])
     if len(owners) != 1:
-        ctx.notes.append(f"id {c['id']} is in {len(owners)} spaces by Spec.Layout (C10's business); skipped")
+        ctx.notes.append(f"id {v['id']} is in {len(owners)} spaces by Spec.Layout (C10's business); skipped")
         return
     cb, u3 = owners[0]
     ctx.count(f"space:{cb}:{u3}")
-    ctx.count(f"fewer:{int(c['fewer'])}")
-    sp = U.parse_spec(replies[1])
-    style = ["abs", c["pos"][0], c["pos"][1]] if c.get("pos") else ["cur", 1, int(c.get("lf", 0))]
-    want, cur, s = U.expected(style, p, c["W"], c["H"], c["x0"], c["y0"])
-    if c.get("fp", "br") == "bl" and cur[1] == c["H"] - 1:
+    ctx.count(f"fewer:{int(v['fewer'])}")
+    sp = U.parse_spec(spec_reply)
+    style = ["abs", v["pos"][0], v["pos"][1]] if v.get("pos") else ["cur", 1, int(v.get("lf", 0))]
+    want, cur, s = U.expected(style, p, v["W"], v["H"], v["x0"], v["y0"])
+    if judge_cursor and v.get("fp", "br") == "bl" and cur[1] == v["H"] - 1:
         # the final move to the bottom-left is an index (ESC D / LF) on the last line: one more scroll
-        want = {(y - 1, x): v for (y, x), v in want.items() if y >= 1}
+        want = {(y - 1, x): val for (y, x), val in want.items() if y >= 1}
     if sp["ph"] != want:
         ctx.violation("displayed cells do not decode to the full ID at the expected positions", c,
                       {"space": [cb, u3], "cells": U.diff_cells(sp["ph"], want)}, key="display-decode")
-    rgb = [list(k) for k, v in sorted(sp["cells"].items()) if v[0] == PH and v[2].startswith("r")]
-    third = [list(k) for k, v in sorted(sp["cells"].items()) if v[0] == PH and len(v[1]) >= 3]
+    rgb = [list(k) for k, val in sorted(sp["cells"].items()) if val[0] == PH and val[2].startswith("r")]
+    third = [list(k) for k, val in sorted(sp["cells"].items()) if val[0] == PH and len(val[1]) >= 3]
     if rgb:
         ctx.count("uses-truecolor")
     if third:
@@ -282,8 +368,212 @@ def _judge(ctx: Ctx, c, res, p, replies, req0=""):
     if third and not u3:
         ctx.violation("third diacritic used for an ID of a space without the third diacritic", c,
                       {"space": [cb, u3], "cells": third[:3]}, key="third-diacritic-in-space-without")
-    if c.get("fp", "br") == "br" and list(sp["cur"]) != list(cur) and sp["ph"] == want:
+    if judge_cursor and v.get("fp", "br") == "br" and list(sp["cur"]) != list(cur) and sp["ph"] == want:
         ctx.violation("cursor does not end at the expected position", c, {"cursor": sp["cur"], "expected": cur}, key="final-cursor")
+
+
+# ------------------------------------------------------------------------------------------
+# family `dargs`: the argument handling of display_only
+# ------------------------------------------------------------------------------------------
+def dargs_spec(c):
+    """What the REQUEST stands for, from the request alone (never from the model):
+         ("refuse", why)            no rectangle is defined / the combination is documented as invalid: nothing may be shown
+         ("rect", p, notes)         p = [id, pid, sc, sr, ec, er], the cells to be shown
+         ("unclear", why)           the statement does not say (an explicit 0 override that differs from the object's own value;
+                                    allow_expansion=False with a start LEFT of / ABOVE the object's own start): K only."""
+    via, ov, own = c["via"], c["ov"], c.get("own")
+    ae = True if c.get("ae") is None else bool(c["ae"])
+    if via == "int":
+        if ov[2] is None or ov[3] is None:
+            return ("refuse", "int-without-ends")
+        if not ae:
+            return ("refuse", "int-no-expansion")
+        pid, o = 0, [0, 0, None, None]
+    elif via == "ph":
+        pid, o = own[0], list(own[1:])
+    else:
+        pid, o = 0, [0, 0, own[0], own[1]]
+    if c.get("pos") is not None and c.get("lf"):
+        return ("refuse", "abs-pos-with-line-feeds")
+    if c.get("pos") is not None and min(c["pos"]) < 0:
+        return ("refuse", "negative-abs-pos")
+    if any(v == 0 and o[i] != 0 for i, v in enumerate(ov)):
+        return ("unclear", "zero-override")
+    r = [o[i] if ov[i] is None else ov[i] for i in range(4)]
+    notes = []
+    if not ae:
+        if r[0] < o[0] or r[1] < o[1]:
+            return ("unclear", "no-expansion-start-outside")
+        for i, nm in ((2, "col"), (3, "row")):
+            if r[i] > o[i]:
+                r[i] = o[i]
+                notes.append("clipped-" + nm)
+    return ("rect", [c["id"], pid, r[0], r[1], r[2], r[3]], notes)
+
+
+def _dargs_obj(c):
+    via, own = c["via"], c.get("own")
+    if via == "int":
+        return f"int:{c['id']}"
+    if via == "ph":
+        return "ph:" + ":".join(str(x) for x in [c["id"]] + list(own))
+    return f"inst:{c['id']}:{own[0]}:{own[1]}"
+
+
+def _dargs_fewer(c):
+    return bool(c["fewer"]) if c.get("fewer") is not None else bool(c.get("cfgfewer", 0))
+
+
+def _dargs_reqs(c, res):
+    o = lambda v: "-" if v is None else str(v)
+    ov = c["ov"]
+    ae = 1 if c.get("ae") is None else int(bool(c["ae"]))
+    pos = f"{c['pos'][0]}:{c['pos'][1]}" if c.get("pos") is not None else "-"
+    reqs = [f"dcall 0 {c.get('cfgfp', 'bl')} {_dargs_obj(c)} {o(ov[0])} {o(ov[1])} {o(ov[2])} {o(ov[3])} {ae} {int(_dargs_fewer(c))} "
+            f"{':'.join(str(x) for x in c['bg'])} {pos} {int(bool(c.get('lf')))} {c.get('fp', 'def')}",
+            f"dispmode {int(_dargs_fewer(c))}"]
+    if res[1]:
+        # whatever reached the display stream is shown to the specification terminal (also when the call raised afterwards)
+        onlcr = 1 if c.get("lf") else 0
+        reqs.append(U.req_spec(c["W"], c["H"], c["x0"], c["y0"], 1, 1, onlcr, c.get("sgr", ["-", "-", "-"]), bytes.fromhex(res[1])))
+    return reqs
+
+
+def _judge_dargs(ctx: Ctx, c, res, replies):
+    st, data, ret, mode = res[0], bytes.fromhex(res[1]), res[2], res[3]
+    ctx.count("dargs:route:" + c["via"])
+    ctx.count("dargs:impl:" + st)
+    if st.startswith("prep "):
+        ctx.mismatch("dargs: the object to display could not be obtained", c, st, "an object")
+        return
+    # K ---------------------------------------------------------------------------------------
+    m = replies[0].split(" ")
+    if len(m) != 3:
+        raise ToolFailure("drv_ph dcall: " + replies[0][:200])
+    mst = m[0].replace("_", " ")
+    mdata = b"" if m[1] == "-" else bytes.fromhex(m[1])
+    mret = None if m[2] == "-" else [int(x) for x in m[2].split(",")]
+    if st != mst:
+        ctx.mismatch("dargs: display_only status", c, st, mst)
+    elif data != mdata:
+        ctx.mismatch("dargs: display_only bytes" + ("" if st == "ok" else " written before the error"), c, data.hex()[:400], mdata.hex()[:400])
+    elif ret != mret:
+        ctx.mismatch("dargs: display_only returned placeholder", c, ret, mret)
+    if mode is not None:
+        want_mode = [int(x) for x in replies[1].split(" ")] + [PH]
+        if mode != want_mode:
+            ctx.mismatch("dargs: get_image_placeholder_mode(object)", c, mode, want_mode)
+    # F ---------------------------------------------------------------------------------------
+    spec = dargs_spec(c)
+    ctx.count("dargs:request:" + spec[0] + (":" + spec[1] if spec[0] != "rect" else ""))
+    sp = U.parse_spec(replies[2]) if len(replies) > 2 else None
+    fp = c.get("fp", "def")
+    fp_eff = c.get("cfgfp", "bl") if fp == "def" else fp
+    if fp == "def":
+        ctx.count("dargs:final-pos-left-to-terminal-default:" + fp_eff)
+    if spec[0] == "refuse":
+        if sp is not None and sp["ph"]:
+            ctx.violation("a display request that defines no rectangle put placeholder cells on the screen", c,
+                          {"why": spec[1], "status": st, "cells": U.diff_cells(sp["ph"], {})}, key="refused-request-shows-cells")
+        return
+    if spec[0] == "unclear":
+        if st == "ok" and ret is not None and sp is not None and U.in_domain(ret):
+            # whatever rectangle the call reports as displayed must be what is on the screen, with the allowed features only
+            v = dict(id=c["id"], fewer=_dargs_fewer(c), pos=c.get("pos"), lf=c.get("lf", 0), fp=fp_eff, W=c["W"], H=c["H"], x0=c["x0"], y0=c["y0"])
+            if _fits(v, ret):
+                _judge_screen(ctx, c, v, ret, replies[2])
+        return
+    p, notes = spec[1], spec[2]
+    for nt in notes:
+        ctx.count("dargs:" + nt)
+    late = bool(c.get("lf")) and fp_eff in ("tr", "tl") or fp_eff == "bad"
+    if late:
+        ctx.count("dargs:late-error:" + fp_eff)
+    if st == "ok" and ret != p:
+        ctx.violation("display_only reports another rectangle than the request stands for", c, {"returned": ret, "requested": p}, key="dargs-returned-rect")
+    if not U.in_domain(p):
+        if sp is not None and sp["ph"]:
+            ctx.violation("a display request for an empty / unaddressable rectangle put placeholder cells on the screen", c,
+                          {"requested": p, "status": st, "cells": U.diff_cells(sp["ph"], {})}, key="refused-request-shows-cells")
+        return
+    if st != "ok" and not late:
+        ctx.violation("display_only raised on an addressable placeholder", c, {"status": st, "requested": p}, key="raises-in-domain")
+    if sp is None:
+        if st == "ok":
+            ctx.violation("display_only printed nothing for an addressable placeholder", c, {"requested": p}, key="display-decode")
+        return
+    v = dict(id=c["id"], fewer=_dargs_fewer(c), pos=c.get("pos"), lf=c.get("lf", 0), fp=fp_eff, W=c["W"], H=c["H"], x0=c["x0"], y0=c["y0"])
+    if _fits(v, p):
+        _judge_screen(ctx, c, v, p, replies[2], judge_cursor=(st == "ok"))
+    else:
+        ctx.count("dargs:geometry-does-not-fit(not judged)")
+
+
+def _fits(v, p):
+    C, R = p[4] - p[2], p[5] - p[3]
+    if v.get("pos"):
+        return v["pos"][0] + C <= v["W"] and v["pos"][1] + R <= v["H"]
+    return v["x0"] + C <= v["W"]
+
+
+def dargs_case(rng, n):
+    via = rng.choice(["int", "ph", "ph", "inst-new", "inst-assign", "inst-db"])
+    if not 0 < n <= 0xFFFFFFFF and via in ("inst-assign", "inst-db"):
+        via = "inst-new"
+    c = dict(k="dargs", id=n, via=via, bg=rng.choice([["none"], ["none"], ["idx", 3], ["rgb", 1, 2, 255]]),
+             sgr=rng.choice([["-", "-", "-"], ["r1.2.3", "i5", "i2"]]))
+    if via == "ph":
+        sc, sr = rng.choice([0, 0, 1, 2, 5]), rng.choice([0, 0, 1, 3])
+        own = [rng.choice([0, 0, 1, 255, 256, 0xFFFFFF]), sc, sr, sc + rng.randrange(1, 6), sr + rng.randrange(1, 4)]
+        o = own[1:]
+        c["own"] = own
+    elif via == "int":
+        o = [0, 0, rng.randrange(1, 6), rng.randrange(1, 4)]      # what the caller has in mind; passed through the overrides
+    else:
+        c["own"] = [rng.randrange(1, 7), rng.randrange(1, 5)]
+        o = [0, 0] + c["own"]
+    ov = [None] * 4
+    for i in (0, 1):
+        if rng.random() < 0.4:
+            ov[i] = max(0, o[i] + rng.choice([-1, 0, 1, 1, 2]))
+    for i in (2, 3):
+        if rng.random() < (0.9 if via == "int" else 0.5):
+            ov[i] = max(0, o[i] + rng.choice([-2, -1, 0, 1, 3])) if via != "int" or rng.random() < 0.3 else o[i]
+    if rng.random() < 0.04:
+        ov[rng.randrange(4)] = 0
+    c["ov"] = ov
+    r = rng.random()
+    if r < 0.45:
+        c["ae"] = 0
+    elif r < 0.6:
+        c["ae"] = 1
+    if via == "int" and c.get("ae") == 0 and rng.random() < 0.7:
+        del c["ae"]
+    r = rng.random()
+    if r < 0.12:
+        c["pos"] = [rng.choice([0, 2]), rng.choice([0, 1])]
+    elif r < 0.18:
+        c["pos"] = rng.choice([[-1, 0], [0, -1], [-2, -3], [3, -1]])
+    elif r < 0.4:
+        c["lf"] = 1
+    if c.get("pos") and rng.random() < 0.15:
+        c["lf"] = 1
+    c["fp"] = rng.choice(["br", "br", "bl", "tr", "tl", "def", "def", "bad"] if rng.random() < 0.5 else ["br", "def"])
+    c["cfgfp"] = rng.choice(["br", "tr", "tl", "bl", "bl"])
+    c["fewer"] = rng.choice([0, 1, None])
+    if c["fewer"] is None:
+        c["cfgfewer"] = rng.randrange(2)
+    # terminal geometry: on the rectangle the request stands for (any, for requests without one)
+    spec = dargs_spec(c)
+    rect = spec[1][2:] if spec[0] == "rect" else [0, 0, 2, 1]
+    if spec[0] == "unclear":
+        rect = [0, 0, 8, 8]
+    if not (rect[0] < rect[2] and rect[1] < rect[3]):
+        rect = [0, 0, 2, 1]
+    g = dict(rect=rect, pos=c.get("pos") if c.get("pos") and min(c["pos"]) >= 0 else None)
+    place(rng, g)
+    c.update(W=g["W"], H=g["H"], x0=g["x0"], y0=g["y0"])
+    return c
 
 
 def _judge_alloc(ctx: Ctx, c: dict, res):
@@ -332,7 +622,16 @@ def run_batch(ctx: Ctx, batch):
         if c.get("k") == "alloc":
             _judge_alloc(ctx, c, res)
             ctx.case(c, nontrivial=any(r[0] == "ok" for r in res[1]))
-    pairs = [(c, res) for c, res in zip(batch, results) if c.get("k") != "alloc"]
+    d = ctx.driver("drv_ph")
+    dar = [(c, res) for c, res in zip(batch, results) if c.get("k") == "dargs"]
+    dreqs = [_dargs_reqs(c, res) for c, res in dar]
+    dreplies = d.ask_many([r for reqs in dreqs for r in reqs])
+    i = 0
+    for (c, res), reqs in zip(dar, dreqs):
+        _judge_dargs(ctx, c, res, dreplies[i:i + len(reqs)])
+        i += len(reqs)
+        ctx.case(c, nontrivial=bool(res[1]))
+    pairs = [(c, res) for c, res in zip(batch, results) if c.get("k") not in ("alloc", "dargs")]
     batch, results = [x[0] for x in pairs], [x[1] for x in pairs]
     prep = [(c, res) + _reqs(c, res) for c, res in zip(batch, results)]
     flat = [r for (_, _, _, reqs) in prep for r in reqs]
@@ -348,6 +647,8 @@ def check_case(ctx: Ctx, c: dict):
     res = host([c])[0]
     if c.get("k") == "alloc":
         return _judge_alloc(ctx, c, res)
+    if c.get("k") == "dargs":
+        return _judge_dargs(ctx, c, res, ctx.driver("drv_ph").ask_many(_dargs_reqs(c, res)))
     p, reqs = _reqs(c, res)
     _judge(ctx, c, res, p, ctx.driver("drv_ph").ask_many(reqs), reqs[0])
 
@@ -383,6 +684,16 @@ def mk(rng, n, **kw):
         c["pid"] = rng.choice([0, 1, 255, 256, 0xFFFFFF])
     c.update(kw)
     return place(rng, c)
+
+
+def _rand_id(rng):
+    cb, u3 = rng.choice(SPACES)
+    n = (rng.randrange(1, 256) << 24) if u3 else 0
+    if cb == 8:
+        n |= rng.randrange(1, 256)
+    elif cb == 24:
+        n |= (rng.randrange(1, 65536) << 8) | rng.randrange(256)
+    return n
 
 
 def alloc_case(rng):
@@ -434,13 +745,13 @@ def cases(ctx: Ctx):
                 yield mk(rng, n, fewer=fewer)
     # random ids of each space (by construction of the layout)
     for _ in range(600 if quick else 6000):
-        cb, u3 = rng.choice(SPACES)
-        n = (rng.randrange(1, 256) << 24) if u3 else 0
-        if cb == 8:
-            n |= rng.randrange(1, 256)
-        elif cb == 24:
-            n |= (rng.randrange(1, 65536) << 8) | rng.randrange(256)
-        yield mk(rng, n)
+        yield mk(rng, _rand_id(rng))
+    # the argument handling of display_only: what `id` may be, overrides, allow_expansion, abs_pos, final position, defaults
+    for _ in range(1500 if quick else 15000):
+        yield dargs_case(rng, _rand_id(rng) if rng.random() < 0.8 else
+                         (rng.choice(U.BYTECLS) << 24 | rng.choice(U.BYTECLS) << 16 | rng.choice(U.BYTECLS) << 8 | rng.choice(U.BYTECLS)))
+    for n in (0, 2**32, -1):
+        yield dargs_case(rng, n)
     # boundary / error inputs
     for n in (0, 2**32, -1):
         yield mk(rng, n)
@@ -465,7 +776,10 @@ def run(ctx: Ctx):
                 "features judged against the space that applies to the request); display_only(id or ImagePlaceholder, rectangle, fewer_diacritics, background none/int/'#rrggbb', abs_pos, "
                 "use_line_feeds, final_cursor_pos) for every byte-class ID (each byte in {0,1,127,128,255}) with and without "
                 "fewer_diacritics, random IDs of each of the 5 spaces; thorough: every ID of the spaces 0-colour+3rd, 8bit, "
-                "8bit_diacritic (IDSpace.all_ids, 65 535 IDs) x fewer_diacritics. distinct = canonical JSON; non-trivial = output produced")
+                "8bit_diacritic (IDSpace.all_ids, 65 535 IDs) x fewer_diacritics; family dargs: display_only(int | ImagePlaceholder | ImageInstance "
+                "constructed / from assign_id / from get_image_instance) x any subset of start/end overrides around the object's own rectangle x "
+                "allow_expansion on/off/not given x abs_pos none/valid/negative x line feeds x final_cursor_pos named/terminal default/unknown name x "
+                "fewer_diacritics given/left to the configuration, random IDs of the 5 spaces and byte-class IDs. distinct = canonical JSON; non-trivial = output produced")
     corpus_dir = Path(__file__).resolve().parent.parent / "corpus" / "C14"
     if corpus_dir.is_dir():
         for fp in sorted(corpus_dir.glob("*.json")):
